@@ -26,6 +26,8 @@ pub struct Case {
     pub evict_before: Vec<bool>,
     /// eviction fault inside calls: at these event counts (gets + resolves after load)
     pub evict_at: Vec<u64>,
+    /// File::set_options before op k: switches between strict and tolerant parsing
+    pub switch_options: Vec<bool>,
 }
 
 impl Case {
@@ -40,7 +42,13 @@ impl Case {
             "new_resolver": self.new_resolver,
             "evict_before": self.evict_before,
             "evict_at": self.evict_at,
+            "switch_options": self.switch_options,
         })
+    }
+    /// parse mode in force when op k runs
+    pub fn tolerant_at(&self, k: usize) -> bool {
+        let flips = self.switch_options.iter().take(k + 1).filter(|&&b| b).count();
+        self.tolerant ^ (flips % 2 == 1)
     }
     pub fn from_json(j: &J, repo: &str) -> Option<Case> {
         let bools = |k: &str| -> Option<Vec<bool>> { Some(j.get(k)?.as_array()?.iter().map(|x| x.as_bool().unwrap_or(false)).collect()) };
@@ -53,11 +61,12 @@ impl Case {
             new_resolver: bools("new_resolver")?,
             evict_before: bools("evict_before")?,
             evict_at: j.get("evict_at")?.as_array()?.iter().filter_map(|x| x.as_u64()).collect(),
+            switch_options: bools("switch_options").unwrap_or_default(),
         })
     }
     fn summary(&self) -> J {
         json!({"doc": self.doc.label, "tolerant": self.tolerant, "obj_cache": self.obj_cache, "stm_cache": self.stm_cache,
-            "ops": self.ops.iter().map(|o| o.to_json()).collect::<Vec<_>>(), "new_resolver": self.new_resolver, "evict_before": self.evict_before, "evict_at": self.evict_at})
+            "ops": self.ops.iter().map(|o| o.to_json()).collect::<Vec<_>>(), "new_resolver": self.new_resolver, "evict_before": self.evict_before, "evict_at": self.evict_at, "switch_options": self.switch_options})
     }
 }
 
@@ -72,7 +81,7 @@ pub struct Outcome {
 pub fn run_case(case: &Case) -> Outcome {
     let ctl = SimCtl::new(case.obj_cache, case.stm_cache);
     clear_last_panic();
-    let file = match ops::open(&case.doc.bytes, &ctl, case.tolerant, &case.doc.password) {
+    let mut file = match ops::open(&case.doc.bytes, &ctl, case.tolerant, &case.doc.password) {
         Ok(f) => f,
         Err(_) => return Outcome { answers: vec![], panic: None, evictions: 0, computes: 0, load_error: true },
     };
@@ -80,15 +89,26 @@ pub fn run_case(case: &Case) -> Outcome {
     *ctl.evict_at.lock().unwrap() = case.evict_at.iter().map(|e| base + e).collect();
     let mut answers = vec![];
     let r = std::panic::catch_unwind(std::panic::AssertUnwindSafe(|| {
-        let mut resolver = file.resolver();
-        for (k, op) in case.ops.iter().enumerate() {
-            if case.evict_before.get(k).cloned().unwrap_or(false) {
-                ctl.evict();
+        // histories are cut at option switches: set_options needs the document exclusively
+        let mut k = 0;
+        while k < case.ops.len() {
+            if case.switch_options.get(k).cloned().unwrap_or(false) {
+                file.set_options(if case.tolerant_at(k) { pdf::object::ParseOptions::tolerant() } else { pdf::object::ParseOptions::strict() });
             }
-            if case.new_resolver.get(k).cloned().unwrap_or(false) {
-                resolver = file.resolver();
+            let mut resolver = file.resolver();
+            loop {
+                if case.evict_before.get(k).cloned().unwrap_or(false) {
+                    ctl.evict();
+                }
+                if case.new_resolver.get(k).cloned().unwrap_or(false) {
+                    resolver = file.resolver();
+                }
+                answers.push(ops::exec(&file, &resolver, false, &case.ops[k]));
+                k += 1;
+                if k >= case.ops.len() || case.switch_options.get(k).cloned().unwrap_or(false) {
+                    break;
+                }
             }
-            answers.push(ops::exec(&file, &resolver, false, op));
         }
     }));
     let panic = match r {
@@ -213,7 +233,7 @@ impl C12 {
             r /= n;
         }
         let len = ops_v.len();
-        Case { doc: self.docs[it.doc].clone(), tolerant, obj_cache: mode.0, stm_cache: mode.1, ops: ops_v, new_resolver: vec![false; len], evict_before: vec![false; len], evict_at: vec![] }
+        Case { doc: self.docs[it.doc].clone(), tolerant, obj_cache: mode.0, stm_cache: mode.1, ops: ops_v, new_resolver: vec![false; len], evict_before: vec![false; len], evict_at: vec![], switch_options: vec![false; len] }
     }
 
     fn random_case(&mut self, ctx: &WorkerCtx, i: u64) -> Case {
@@ -263,13 +283,15 @@ impl C12 {
         let evict_before = (0..len).map(|_| faults && rng.chance(1, 4)).collect();
         let evict_at = if faults { (0..rng.usize(4)).map(|_| rng.below(80)).collect() } else { vec![] };
         let new_resolver = (0..len).map(|_| rng.chance(1, 3)).collect();
-        Case { doc, tolerant: rng.chance(1, 3), obj_cache: mode.0, stm_cache: mode.1, ops: ops_v, new_resolver, evict_before, evict_at }
+        let switching = rng.chance(1, 5);
+        let switch_options = (0..len).map(|k| switching && k > 0 && rng.chance(1, 4)).collect();
+        Case { doc, tolerant: rng.chance(1, 3), obj_cache: mode.0, stm_cache: mode.1, ops: ops_v, new_resolver, evict_before, evict_at, switch_options }
     }
 
     /// first call whose cached answer differs from its alone answer
     fn first_mismatch(&mut self, case: &Case, out: &Outcome) -> Option<(usize, Answer, Answer)> {
         for (k, a) in out.answers.iter().enumerate() {
-            let alone = self.alone.answer(&case.doc, case.tolerant, &case.ops[k]);
+            let alone = self.alone.answer(&case.doc, case.tolerant_at(k), &case.ops[k]);
             if !alone.same(a) {
                 return Some((k, alone, a.clone()));
             }
@@ -282,14 +304,17 @@ impl C12 {
         let mut before: Vec<String> = case.ops[..k].iter().map(|o| o.kind()).collect();
         before.sort();
         before.dedup();
-        if alone.ok && got.ok && case.tolerant && self.alone.doc_has_cycle(&case.doc) {
+        if alone.ok && got.ok && (case.tolerant || case.switch_options.iter().any(|&b| b)) && self.alone.doc_has_cycle(&case.doc) {
             // one root cause, many shapes (which call, which calls before, with or without eviction)
             return "tolerant mode, document with a typed reference cycle: where the cycle is cut depends on the calls made before (the cut object is cached)".to_string();
         }
         let kind = if alone.ok && got.ok { "different value" } else if alone.ok != got.ok { "Ok/Err class differs" } else { "different kind of error" };
         let mut flags = vec![];
-        if case.tolerant {
+        if case.tolerant_at(k) {
             flags.push("tolerant");
+        }
+        if case.switch_options.iter().take(k + 1).any(|&b| b) {
+            flags.push("parse options switched with set_options");
         }
         if self.alone.doc_has_cycle(&case.doc) {
             flags.push("document has a typed reference cycle");
@@ -335,6 +360,7 @@ impl C12 {
                     best.ops.truncate(k + 1);
                     best.new_resolver.truncate(k + 1);
                     best.evict_before.truncate(k + 1);
+                    best.switch_options.truncate(k + 1);
                     progress = true;
                 }
             }
@@ -359,11 +385,21 @@ impl C12 {
                 c.ops.remove(k);
                 c.new_resolver.remove(k);
                 c.evict_before.remove(k);
+                // removing a call must not change the parse mode of the calls after it
+                let sw = c.switch_options.remove(k);
+                if sw && k < c.switch_options.len() {
+                    c.switch_options[k] ^= true;
+                }
                 cands.push(c);
             }
             if best.tolerant {
                 let mut c = best.clone();
                 c.tolerant = false;
+                cands.push(c);
+            }
+            if best.switch_options.iter().any(|&b| b) {
+                let mut c = best.clone();
+                c.switch_options.iter_mut().for_each(|b| *b = false);
                 cands.push(c);
             }
             for c in cands {
@@ -430,7 +466,7 @@ impl Check for C12 {
         h.u64(case.tolerant as u64 | (case.obj_cache as u64) << 1 | (case.stm_cache as u64) << 2);
         for (k, op) in case.ops.iter().enumerate() {
             h.str(&format!("{:?}", op));
-            h.u64(case.new_resolver[k] as u64 | (case.evict_before[k] as u64) << 1);
+            h.u64(case.new_resolver[k] as u64 | (case.evict_before[k] as u64) << 1 | (case.switch_options.get(k).cloned().unwrap_or(false) as u64) << 2);
         }
         for e in &case.evict_at {
             h.u64(*e);
